@@ -78,6 +78,27 @@ def main():
                 res['tp_jac_err'] = float(max(
                     np.max(np.abs(Jx - refx) / np.maximum(sx, 1e-300)),
                     np.max(np.abs(Jy - refy) / np.maximum(sy, 1e-300)))) if G.size else 0.0
+                # the same OBJECT evaluated on a second grid with the same size and the same first/last
+                # node per axis but different interior nodes (a cache keyed on a fingerprint of the grid
+                # must not be reused): compared with the 1D collocation product for THAT grid
+                if len(pts) >= 4 and len(pts2) >= 1:
+                    ptsb = np.concatenate(([pts[0]], pts[-2:0:-1], [pts[-1]]))
+                    pts2b = np.concatenate(([pts2[0]], pts2[-2:0:-1], [pts2[-1]])) if len(pts2) >= 3 else pts2
+                    Gb = f.grid_eval((pts2b, ptsb))
+                    C1b = bspline.collocation(kv, ptsb).toarray()
+                    C2b = bspline.collocation(kv2, pts2b).toarray()
+                    refb = C2b @ c2 @ C1b.T
+                    scaleb = np.abs(C2b) @ np.abs(c2) @ np.abs(C1b).T
+                    res['tp_err_second_grid'] = float(np.max(np.abs(Gb - refb) / np.maximum(scaleb, 1e-300)))
+                    Jb = f.grid_jacobian((pts2b, ptsb))
+                    D1b = bspline.collocation_derivs(kv, ptsb, 1)[1].toarray()
+                    refxb = C2b @ c2 @ D1b.T
+                    sxb = np.abs(C2b) @ np.abs(c2) @ np.abs(D1b).T
+                    Jxb = Jb[..., 0, 0] if Jb.ndim == 4 else Jb[..., 0]
+                    res['tp_jac_err_second_grid'] = float(np.max(np.abs(Jxb - refxb) / np.maximum(sxb, 1e-300)))
+                    # and the first grid again
+                    Ga = f.grid_eval((pts2, pts))
+                    res['tp_first_grid_again_same'] = bool(np.array_equal(Ga, G))
                 # single point evaluation agrees with the grid
                 v = f(float(pts[0]), float(pts2[0]))
                 res['tp_point_err'] = float(abs(float(np.squeeze(v)) - G[0, 0]) / max(scale[0, 0], 1e-300))
